@@ -358,15 +358,23 @@ def discharge(ob, timeout_ms):
     g, _sk = _skolemize_goal(g)
     hints = _ground_hints(g)
     # portfolio: (1) pure e-matching (fast, can only prove), (2) default z3 incl. MBQI (proves or refutes)
-    for cfg, budget in (({'smt.mbqi': False, 'smt.auto_config': False}, min(timeout_ms, 5000)),
+    EM = {'smt.mbqi': False, 'smt.auto_config': False}
+    # last stage: pure e-matching once more with the full budget - some proofs need 10-15 s of instantiation when
+    # the machine is busy, which the quick first stage cuts off
+    for cfg, budget in ((EM, min(timeout_ms, 5000)),
                         ('cvc5', min(timeout_ms, 15000) if not z3.is_false(g) else 0),
-                        ({}, timeout_ms)):
+                        ({}, timeout_ms),
+                        (dict(EM, retry=True), timeout_ms if not z3.is_false(g) else 0)):
         if cfg == 'cvc5':
             if s is not None and budget and cvc5_check(s, budget) == 'unsat':
                 r = z3.unsat
                 ob.solver = 'cvc5-1.0.3'
                 break
             continue
+        if isinstance(cfg, dict) and cfg.get('retry'):
+            if r != z3.unknown or not budget or getattr(ob, 'cli_answer', None) == 'sat':
+                break
+            cfg = EM
         s = z3.Solver()
         s.set('timeout', budget)
         for k_, v_ in cfg.items():
@@ -384,10 +392,11 @@ def discharge(ob, timeout_ms):
                 ob.cli_answer = cli
                 if r == z3.unsat:
                     ob.solver += ' (cli)'
-                break
+                    break
+                continue
         r = timed_check(s, budget)
         if r == z3.unsat:
-            ob.solver += ' (e-matching)' if cfg else ''
+            ob.solver = 'z3-' + z3.get_version_string() + (' (e-matching)' if cfg else '')
             break
         if r == z3.sat and not cfg:
             break
